@@ -76,6 +76,9 @@ def run(res, tier, seed):
         W = rng.randint(1, 5)
         tasks.append({"W": W, "width": rng.randint(1, 6), "chain": rng.choice([0, 0, 1, 2]), "sched": rng.choice(["default", "random", None]),
                       "seed": seed * 1000 + i, "p": rng.choice([0, 0.1, 0.3])})
+    # boundary: worker counts beyond the default cap of the thread pool (32) must be honoured when given explicitly
+    for i, W in enumerate((33, 40) if tier == "quick" else (33, 34, 40, 48, 64)):
+        tasks.append({"W": W, "width": W + (i % 2), "chain": 0, "sched": ["default", "random"][i % 2], "seed": seed * 1000 + 900 + i, "p": 0})
     outs = common.pmap(_rendezvous, tasks)
     for t, o in zip(tasks, outs):
         if o["outcome"] == "hang" or o["dead"]:
